@@ -201,6 +201,8 @@ int main() {
   static const char* fn[] = {"directed", "directed-in/out", "undirected", "undirected-sorted", "directed-no-lockable"};
   vsim_note("component", "morph=%s", fn[fl]);
   vsim_enable_fault(VF_CAS_WEAK, 0.005, 0.1);
+  vsim_enable_fault(VF_PLAIN_PREEMPT, 0.02, 0.6);   // plain shared data of the library (behind locks, in shared helper state) becomes preemptible
+  vsim_plain_preempt_window(1);   // operators here keep no shared non-atomic bookkeeping of their own
   galois::SharedMemSys Gs;
   using namespace galois::graphs;
   switch (fl) {
